@@ -375,6 +375,7 @@ class Exec:
         self.stop = None            # (frame depth, blocks): leaving these blocks at that depth ends the run ("exit",)
         self.closure_subst = {}     # closure body key -> type substitution of the frame that created the closure value
         self.covered = set()        # idents of the bodies this evaluator entered
+        self.discr_ty = {}          # discr(v) term -> type of the local it was read from
 
     # ------------------------------------------------------------ loops
     def loop_info(self, mir):
@@ -670,6 +671,22 @@ class Exec:
             return mk("agg", ("expanded",), tuple(items))
         if e[0] == "downcast":
             return self.update(st, cur, proj[1:], val)
+        if e[0] == "cidx":
+            i = e[1]
+            if tag(cur) == "agg" and cur[1][0] in ("array", "expanded") and i < len(cur[2]):
+                items = list(cur[2])
+                items[i] = self.update(st, items[i], proj[1:], val)
+                return mk("agg", cur[1], tuple(items))
+            if cur is not None and tag(cur) in ("havoc", "param") and i < 8:
+                # an unknown small array: expand lazily to its elements
+                n_ = i + 1
+                m_ = re.match(r"^\[.*; (\d+)\]$", cur[2]) if tag(cur) == "havoc" and isinstance(cur[2], str) else None
+                if m_:
+                    n_ = max(n_, int(m_.group(1)))
+                items = [mk("index", cur, mk_const("usize", k)) for k in range(n_)]
+                items[i] = self.update(st, items[i], proj[1:], val)
+                return mk("agg", ("array",), tuple(items))
+            raise Unsupported("indexed store")
         raise Unsupported("store projection %r" % (e,))
 
     def conv_place(self, fr, p):
@@ -699,7 +716,8 @@ class Exec:
     def write_place(self, st, fr, p, val):
         loc, proj = self.conv_place(fr, p)
         proj = tuple(("idx", self.load(st, fr.locs[e[1]], ())) if e[0] == "idxl" else e for e in proj)
-        if any(e != "deref" and e[0] in ("idx", "cidx") for e in proj):
+        proj = tuple(("cidx", cint(e[1])) if e != "deref" and e[0] == "idx" and is_const(e[1]) else e for e in proj)
+        if any(e != "deref" and e[0] == "idx" for e in proj):
             raise Unsupported("indexed store")
         self.store_to(st, loc, proj, val)
 
@@ -753,6 +771,8 @@ class Exec:
             return self.from_bytes(ty, v["hex"])
         if k == "slice" and "str" in v:
             return mk("str", v["str"])
+        if k == "strs" and "items" in v:
+            return mk("agg", ("array",), tuple(mk("str", x) for x in v["items"]))
         if k == "ptr" and "hex" in v:
             inner = self.from_bytes(F.norm_ty(v["pointee_ty"]), v["hex"])
             loc = st.alloc()
@@ -942,8 +962,16 @@ class Exec:
             v = self.read_place(st, fr, rv["discr"])
             if tag(v) == "agg" and v[1][0] == "adt":
                 return mk_const("isize", v[1][2])
-            return mk("discr", v)
+            d_ = mk("discr", v)
+            pl_ = rv["discr"]
+            if not pl_["p"]:
+                self.discr_ty[d_] = strip_ref(F.norm_ty(fr.mir["locals"][pl_["l"]]["ty"]))
+            return d_
         if "repeat" in rv:
+            m = re.match(r"^(\d+)(_usize)?$", str(rv.get("n", "")).strip())
+            if m and int(m.group(1)) <= 64:
+                el = self.operand(st, fr, rv["repeat"])
+                return mk("agg", ("array",), tuple(el for _ in range(int(m.group(1)))))
             raise Unsupported("repeat")
         raise Unsupported("rvalue %r" % (list(rv.keys()),))
 
@@ -1551,6 +1579,18 @@ class Exec:
                             r_ = self.split_on_flag(st, fr, cnd, s["lhs"], F.norm_ty(rv_["ty"]), bi, k_s + 1)
                             if r_ is not None:
                                 return r_
+                    if "cast" in rv_ and rv_["cast"] == "IntToInt" and self.hooks is None:
+                        # `e as usize` for a field-less enum of this crate: one case per variant
+                        dv = self.operand(st, fr, rv_["a"])
+                        vs_ = self.facts.enums.get(self.discr_ty.get(dv, "")) if tag(dv) == "discr" else None
+                        if vs_ and not (dv in st.known and type(st.known[dv]) is not tuple):
+                            ity_ = F.norm_ty(rv_["ty"])
+                            arms = []
+                            for _, dval in vs_:
+                                s_ = st.fork(); s_.known[dv] = dval
+                                self.write_place(s_, s_.frames[-1], s["lhs"], mk_const(ity_, from_signed(ity_, dval)))
+                                arms.append((dval, self.exec_block(s_, bi, k_s + 1)))
+                            return ("switch", dv, tuple(arms), ("unreachable",))
                     self.assign(st, fr, s)
                 elif "setdiscr" in s:
                     raise Unsupported("SetDiscriminant")
